@@ -94,6 +94,10 @@ pub struct RunCfg {
     /// and restores from the frame number of the load request, as bevy_ggrs-style games do
     #[serde(default)]
     pub own_snapshots: bool,
+    /// local inputs are submitted in a seeded order instead of ascending handles, and now and then
+    /// a throw-away value is submitted first (documented: the later submission overwrites it)
+    #[serde(default)]
+    pub shuffle_submissions: bool,
 }
 
 #[derive(Serialize, Deserialize, Clone, Copy, Debug, PartialEq, Eq)]
